@@ -435,6 +435,9 @@ class LoadWordWithKnownOffset(RewritePattern):
             and isinstance(op.rs1.op, riscv.AddiOp)
             and isinstance(op.rs1.op.immediate, IntegerAttr)
             and isinstance(op.immediate, IntegerAttr)
+            and -2048
+            <= op.rs1.op.immediate.value.data + op.immediate.value.data
+            < 2048
         ):
             rd = op.rd.type
             rewriter.replace(
@@ -455,6 +458,9 @@ class StoreWordWithKnownOffset(RewritePattern):
             isinstance(op.rs1, OpResult)
             and isinstance(op.rs1.op, riscv.AddiOp)
             and isinstance(op.rs1.op.immediate, IntegerAttr)
+            and -2048
+            <= op.rs1.op.immediate.value.data + op.immediate.value.data
+            < 2048
         ):
             rewriter.replace(
                 op,
@@ -475,6 +481,9 @@ class LoadFloatWordWithKnownOffset(RewritePattern):
             and isinstance(op.rs1.op, riscv.AddiOp)
             and isinstance(op.rs1.op.immediate, IntegerAttr)
             and isinstance(op.immediate, IntegerAttr)
+            and -2048
+            <= op.rs1.op.immediate.value.data + op.immediate.value.data
+            < 2048
         ):
             rd = op.rd.type
             rewriter.replace(
@@ -495,6 +504,9 @@ class StoreFloatWordWithKnownOffset(RewritePattern):
             isinstance(op.rs1, OpResult)
             and isinstance(op.rs1.op, riscv.AddiOp)
             and isinstance(op.rs1.op.immediate, IntegerAttr)
+            and -2048
+            <= op.rs1.op.immediate.value.data + op.immediate.value.data
+            < 2048
         ):
             rewriter.replace(
                 op,
@@ -515,6 +527,9 @@ class LoadDoubleWithKnownOffset(RewritePattern):
             and isinstance(op.rs1.op, riscv.AddiOp)
             and isinstance(op.rs1.op.immediate, IntegerAttr)
             and isinstance(op.immediate, IntegerAttr)
+            and -2048
+            <= op.rs1.op.immediate.value.data + op.immediate.value.data
+            < 2048
         ):
             rd = op.rd.type
             rewriter.replace(
@@ -535,6 +550,9 @@ class StoreDoubleWithKnownOffset(RewritePattern):
             isinstance(op.rs1, OpResult)
             and isinstance(op.rs1.op, riscv.AddiOp)
             and isinstance(op.rs1.op.immediate, IntegerAttr)
+            and -2048
+            <= op.rs1.op.immediate.value.data + op.immediate.value.data
+            < 2048
         ):
             rewriter.replace(
                 op,
